@@ -115,7 +115,7 @@ BOUNDS_DOC = {"quick": "hs1/hs2/off full products; decision sequences depth<=3 s
                           "6 accept/offer kinds x 6-7 closing events x 2 timings, events also injected mid-flight M<=2 "
                           "for the plain accept, M<=1 for the other accept kinds, none for the > 64 KiB response head (trio R<=1); "
                           "clwin as quick plus events injected mid-flight M<=1 (trio R<=1); ka as quick"}
-BUDGET = {"quick": 100, "thorough": 1150}
+BUDGET = {"quick": 300, "thorough": 1150}
 
 ENGINES = ("asyncio", "trio")
 KEY = b"dGhlIHNhbXBsZSBub25jZQ=="
